@@ -165,7 +165,9 @@ impl MultiProgress {
         };
 
         state.draw_target = ProgressDrawTarget::hidden();
-        self.state.write().unwrap().remove_idx(idx);
+        let mut multi_state = self.state.write().unwrap();
+        multi_state.remove_idx(idx);
+        multi_state.removed_since_draw = true;
     }
 
     fn internalize(&self, location: InsertLocation, pb: ProgressBar) -> ProgressBar {
@@ -227,6 +229,9 @@ pub(crate) struct MultiState {
     orphan_lines: Vec<LineType>,
     /// The count of currently visible zombie lines.
     zombie_lines_count: VisualLines,
+    /// Whether a bar was removed since the last draw, so that the lines on the screen no longer
+    /// correspond to `ordering`.
+    removed_since_draw: bool,
 }
 
 impl MultiState {
@@ -239,6 +244,7 @@ impl MultiState {
             alignment: MultiProgressAlignment::default(),
             orphan_lines: Vec::new(),
             zombie_lines_count: VisualLines::default(),
+            removed_since_draw: false,
         }
     }
 
@@ -248,8 +254,10 @@ impl MultiState {
         let member = &mut self.members[index];
 
         // If the zombie is the first visual bar then we can reap it right now instead of
-        // deferring it to the next draw.
-        if index != self.ordering.first().copied().unwrap() {
+        // deferring it to the next draw - unless a bar was removed since the last draw: its lines
+        // are still on the screen, possibly above the zombie's, and it is not known which lines
+        // to keep.
+        if index != self.ordering.first().copied().unwrap() || self.removed_since_draw {
             member.is_zombie = true;
             return;
         }
@@ -352,6 +360,7 @@ impl MultiState {
 
         drop(draw_state);
         let drawable = drawable.draw();
+        self.removed_since_draw = false;
 
         for index in reap_indices {
             self.remove_idx(index);
@@ -451,6 +460,7 @@ impl MultiState {
                 // Make the clear operation also wipe out zombie lines
                 drawable.adjust_last_line_count(LineAdjust::Clear(self.zombie_lines_count));
                 self.zombie_lines_count = VisualLines::default();
+                self.removed_since_draw = false;
                 drawable.clear()
             }
             None => Ok(()),
